@@ -34,7 +34,9 @@ def calcHashesOnlyCond : String := "state.NeedHashesOnly && state.IsOriginalTarg
 def calcStampGuard : String := "!target.IsFilegroup"
 def buildTargetOrder : List String := ["needsBuilding", "needsBuilding", "buildFilegroup", "calculateAndCheckRuleHash", "retrieveArtifacts", "writeRuleHash", "retrieveArtifacts", "build", "StoreTargetMetadata", "moveOutputs", "calculateAndCheckRuleHash", "storeInCache", "storeInCache"]
 def buildCheckErrReturns : Bool := true
-def fgCheckInsideChanged : Bool := true
+def fgCheckInsideChanged : Bool := false
+def fgCheckCond : String := "changed||len(target.Hashes)>0"
+def fgCheckCoversDeclared : Bool := true
 def buildMoveBeforeCheck : Bool := true
 def buildStoreAfterCheck : Bool := true
 def retrieveOnFail : List String := ["RemoveOutputs", "return false"]
@@ -48,4 +50,5 @@ def defaultHashCheckers : List String := ["sha1", "sha256", "blake3"]
 def defaultHashFunction : String := "sha256"
 def configHashCoversHashCheckers : Bool := false
 def ruleHashCoversHashes : Bool := true
+def ruleHashCoversHashCheckers : Bool := false
 end PlzVerif.Generated.C35
